@@ -45,7 +45,6 @@ HAND = {
     "OPT": "opt",            # EDNS option framing (dns.edns)
     "SVCB": "svcb",          # parameter dictionary
     "HTTPS": "svcb",
-    "GPOS": "gpos",          # float validation in the constructor
 }
 # Helper (non-rdata) classes that regular types may call; they are translated like a type.
 HELPERS = {"Bitmap"}
@@ -61,6 +60,7 @@ CTOR_CHECKS = {
     "EUIBase": "fixedlen",   # len == byte_len          (-> Fixed n)
     "L64": "hex64",          # 8 octets <-> xxxx:xxxx:xxxx:xxxx
     "NID": "hex64",
+    "GPOS": "gpos",          # three ASCII decimal strings: _validate_float_string + latitude/longitude range
     "Bitmap": "bitmap",      # windows strictly ascending, 1..32 octets each
     "NSEC": "bitmapwrap",    # `if not isinstance(windows, Bitmap): windows = Bitmap(windows)`
     "NSEC3": "bitmapwrap",
@@ -255,7 +255,16 @@ class Ctor:
         self.check = CTOR_CHECKS.get(cdef.name)
         if self.extra and self.check is None:
             raise Unsupported(f"{cdef.name}.__init__: validation outside the idiom set and class not in CTOR_CHECKS: {self.extra}")
-        if self.check in ("bitmapwrap", "hex64"):
+        if self.check == "gpos":
+            # latitude = self._as_bytes(latitude, True, 255) ... self.latitude = latitude
+            for i, p in enumerate(self.params):
+                conv = [n for n in ast.walk(f) if isinstance(n, ast.Assign) and len(n.targets) == 1 and isinstance(n.targets[0], ast.Name)
+                        and n.targets[0].id == p and u(n.value) == f"self._as_bytes({p}, True, 255)"]
+                if not conv:
+                    raise Unsupported(f"{cdef.name}.__init__: parameter {p} is not converted with _as_bytes(.., True, 255)")
+                self.gpos_info = getattr(self, "gpos_info", {})
+                self.gpos_info[i] = {"kind": "bytes", "maxlen": 255, "minlen": 0}
+        if self.check in ("bitmapwrap", "hex64", "gpos"):
             # the wrapped parameter is stored under its own name (self.<param> = ...): verify that
             assigned = set()
             for node in ast.walk(f):
@@ -268,6 +277,7 @@ class Ctor:
                     if p not in assigned:
                         raise Unsupported(f"{cdef.name}.__init__: parameter {p} is not stored as self.{p}")
                     self.attr_of[p] = i
+            self.info.update(getattr(self, "gpos_info", {}))
 
     def pidx(self, node):
         if isinstance(node, ast.Name) and node.id in self.params:
@@ -1146,6 +1156,8 @@ def coq_check(chk):
         return "CkCAA"
     if chk["id"] == "zonemd":
         return "CkZONEMD"
+    if chk["id"] == "gpos":
+        return "CkGPOS"
     raise ValueError(chk)
 
 
